@@ -191,6 +191,10 @@ func buildFile(f *File) (*descriptorpb.FileDescriptorProto, []string, error) {
 			proto.SetExtension(so, sebufhttp.E_ServiceHeaders, &sebufhttp.ServiceHeaders{RequiredHeaders: buildHeaders(s.Headers)})
 			need(HeadersProto)
 			has = true
+		} else if s.HeadersEmpty {
+			proto.SetExtension(so, sebufhttp.E_ServiceHeaders, &sebufhttp.ServiceHeaders{})
+			need(HeadersProto)
+			has = true
 		}
 		if has {
 			sd.Options = so
@@ -226,6 +230,10 @@ func buildFile(f *File) (*descriptorpb.FileDescriptorProto, []string, error) {
 			}
 			if len(m.Headers) > 0 {
 				proto.SetExtension(mo, sebufhttp.E_MethodHeaders, &sebufhttp.MethodHeaders{RequiredHeaders: buildHeaders(m.Headers)})
+				need(HeadersProto)
+				mhas = true
+			} else if m.HeadersEmpty {
+				proto.SetExtension(mo, sebufhttp.E_MethodHeaders, &sebufhttp.MethodHeaders{})
 				need(HeadersProto)
 				mhas = true
 			}
@@ -520,6 +528,62 @@ func buildFieldOptions(f *Field, need func(string)) (*descriptorpb.FieldOptions,
 	}
 	if len(f.Examples) > 0 {
 		proto.SetExtension(o, sebufhttp.E_FieldExamples, &sebufhttp.FieldExamples{Values: f.Examples})
+		ann()
+	}
+	for _, name := range f.PresentEmpty {
+		// present-but-empty forms; an annotation already set above keeps its value
+		switch name {
+		case "field_examples":
+			if !proto.HasExtension(o, sebufhttp.E_FieldExamples) {
+				proto.SetExtension(o, sebufhttp.E_FieldExamples, &sebufhttp.FieldExamples{})
+			}
+		case "query":
+			if !proto.HasExtension(o, sebufhttp.E_Query) {
+				proto.SetExtension(o, sebufhttp.E_Query, &sebufhttp.QueryConfig{})
+			}
+		case "unwrap":
+			if !proto.HasExtension(o, sebufhttp.E_Unwrap) {
+				proto.SetExtension(o, sebufhttp.E_Unwrap, false)
+			}
+		case "nullable":
+			if !proto.HasExtension(o, sebufhttp.E_Nullable) {
+				proto.SetExtension(o, sebufhttp.E_Nullable, false)
+			}
+		case "flatten":
+			if !proto.HasExtension(o, sebufhttp.E_Flatten) {
+				proto.SetExtension(o, sebufhttp.E_Flatten, false)
+			}
+		case "flatten_prefix":
+			if !proto.HasExtension(o, sebufhttp.E_FlattenPrefix) {
+				proto.SetExtension(o, sebufhttp.E_FlattenPrefix, "")
+			}
+		case "oneof_value":
+			if !proto.HasExtension(o, sebufhttp.E_OneofValue) {
+				proto.SetExtension(o, sebufhttp.E_OneofValue, "")
+			}
+		case "int64_encoding":
+			if !proto.HasExtension(o, sebufhttp.E_Int64Encoding) {
+				proto.SetExtension(o, sebufhttp.E_Int64Encoding, sebufhttp.Int64Encoding(0))
+			}
+		case "enum_encoding":
+			if !proto.HasExtension(o, sebufhttp.E_EnumEncoding) {
+				proto.SetExtension(o, sebufhttp.E_EnumEncoding, sebufhttp.EnumEncoding(0))
+			}
+		case "empty_behavior":
+			if !proto.HasExtension(o, sebufhttp.E_EmptyBehavior) {
+				proto.SetExtension(o, sebufhttp.E_EmptyBehavior, sebufhttp.EmptyBehavior(0))
+			}
+		case "timestamp_format":
+			if !proto.HasExtension(o, sebufhttp.E_TimestampFormat) {
+				proto.SetExtension(o, sebufhttp.E_TimestampFormat, sebufhttp.TimestampFormat(0))
+			}
+		case "bytes_encoding":
+			if !proto.HasExtension(o, sebufhttp.E_BytesEncoding) {
+				proto.SetExtension(o, sebufhttp.E_BytesEncoding, sebufhttp.BytesEncoding(0))
+			}
+		default:
+			return nil, fmt.Errorf("field %s: unknown present-empty annotation %q", f.Name, name)
+		}
 		ann()
 	}
 	if f.Rules != nil {
